@@ -277,7 +277,11 @@ struct Ctx {
         vh::counter("dgram_" + x.why);
         size_t mine = 0;
         for (auto &e : got) {
-            out += show_ev(e) + ";";
+            out += vh::fmt("%s A[%zu]", status_name(e.status), e.a.size());
+            for (auto &a : e.a) out += vh::fmt(" %02x%02x%02x%02x/%u", a.ip[0], a.ip[1], a.ip[2], a.ip[3], a.ttl);
+            out += vh::fmt(" CNAME[%zu]", e.c.size());
+            for (auto &cn : e.c) out += vh::fmt(" len%zu/%u", cn.name.size(), cn.ttl);
+            out += ";";
             if (e.uid != x.uid) {
                 if (x.k == X_NOCB)
                     vh::viol("ignore/callback-on-" + x.why, show_ev(e) + ctx());
